@@ -76,6 +76,9 @@ func applyMutations(z []byte, other []byte, ms []mutation) []byte {
 		switch m.Op {
 		case "xor":
 			out[off] ^= m.Val
+		case "put":
+			// overwrite with the given bytes
+			copy(out[off:], m.Ins)
 		case "zero":
 			// a whole field overwritten with zero bytes
 			for k := off; k < off+m.Len && k < n; k++ {
@@ -185,8 +188,73 @@ func drawMutation(t *rapid.T, z []byte, fr *ref.Frame, otherLen int) mutation {
 		return f
 	}
 	regs := blockRegions(fr)
-	op := rapid.SampledFrom([]string{"xor", "xor", "xor", "xor", "set", "set", "zero", "zero", "del", "dup", "swap", "splice", "ins", "blockdel", "blockdup", "blockswap"}).Draw(t, "mop")
+	op := rapid.SampledFrom([]string{"xor", "xor", "xor", "xor", "set", "set", "zero", "zero", "del", "dup", "swap", "splice", "ins", "blockdel", "blockdup", "blockswap", "forge", "forge", "magicins"}).Draw(t, "mop")
 	switch op {
+	case "forge":
+		// a checksum field replaced by a *plausible* wrong value: the XXH32 of the wrong bytes (decoded instead of stored
+		// block, content without its last block ...), the right value byte-swapped or seeded differently
+		var cands []ref.Field
+		for _, f := range fr.Fields {
+			if f.Kind == "bsum" || f.Kind == "csum" {
+				cands = append(cands, f)
+			}
+		}
+		if len(cands) == 0 {
+			m.Op, m.What, m.Off, m.Val = "xor", "any", rapid.IntRange(0, n-1).Draw(t, "off"), 1
+			break
+		}
+		f := rapid.SampledFrom(cands).Draw(t, "forge.field")
+		var v uint32
+		cur := uint32(z[f.Off]) | uint32(z[f.Off+1])<<8 | uint32(z[f.Off+2])<<16 | uint32(z[f.Off+3])<<24
+		how := rapid.IntRange(0, 3).Draw(t, "forge.how")
+		switch {
+		case how == 0 && f.Kind == "bsum" && f.Block < len(fr.Blocks):
+			// XXH32 of the *decoded* bytes of that block
+			start := 0
+			for i := 0; i < f.Block; i++ {
+				start += fr.Blocks[i].Decoded
+			}
+			if start+fr.Blocks[f.Block].Decoded <= len(fr.Content) {
+				v = ref.XXH32(fr.Content[start:start+fr.Blocks[f.Block].Decoded], 0)
+			}
+		case how == 0:
+			// content checksum of everything but the last block
+			last := 0
+			if len(fr.Blocks) > 0 {
+				last = fr.Blocks[len(fr.Blocks)-1].Decoded
+			}
+			v = ref.XXH32(fr.Content[:len(fr.Content)-last], 0)
+		case how == 1:
+			v = cur>>24 | cur>>8&0xFF00 | cur<<8&0xFF0000 | cur<<24 // big-endian
+		case how == 2:
+			v = ref.XXH32(z[f.Off-minInt2(f.Off, 16):f.Off], 1) // some other seed / bytes
+		default:
+			v = ^cur
+		}
+		m.Op, m.What, m.Off = "ins", f.Kind+"-forged", f.Off
+		m.Ins = []byte{byte(v), byte(v >> 8), byte(v >> 16), byte(v >> 24)}
+		m.Len = 4 // replace, not insert: handled below
+		m.Op = "put"
+	case "magicins":
+		// a well-known 32-bit word (frame / legacy / skippable magic) inserted where a block size, an end mark or a
+		// checksum is expected
+		var cands []ref.Field
+		for _, f := range fr.Fields {
+			switch f.Kind {
+			case "bsize", "endmark", "csum", "bsum", "lbsize":
+				cands = append(cands, f)
+			}
+		}
+		off := rapid.IntRange(0, n).Draw(t, "magic.off")
+		if len(cands) > 0 {
+			off = rapid.SampledFrom(cands).Draw(t, "magic.field").Off
+		}
+		w := rapid.SampledFrom([]uint32{ref.MagicLegacy, ref.MagicFrame, ref.MagicSkipFirst, ref.MagicSkipLast}).Draw(t, "magic.word")
+		m.Op, m.What, m.Off = "ins", "magic-word", off
+		m.Ins = []byte{byte(w), byte(w >> 8), byte(w >> 16), byte(w >> 24)}
+		if w >= ref.MagicSkipFirst && w <= ref.MagicSkipLast {
+			m.Ins = append(m.Ins, 0, 0, 0, 0)
+		}
 	case "zero":
 		// prefer the integrity fields: a field of zeros is what "not set" looks like to sloppy code
 		var cands []ref.Field
@@ -372,6 +440,13 @@ func runC05(c c05Case, rec *stat.Rec) *stat.Failure {
 	return nil
 }
 
+func minInt2(a, b int) int {
+	if a < b {
+		return a
+	}
+	return b
+}
+
 func lastWords(s string, n int) string {
 	w := bytes.Fields([]byte(s))
 	if len(w) > n {
@@ -410,6 +485,6 @@ func TestC05Pinned(t *testing.T) {
 func TestC05(t *testing.T) {
 	rec := stat.For("C05")
 	rec.SetRule(c05Rule)
-	rec.Require("hostile/stored-block-larger-than-the-block-maximum", "hostile/block-decodes-beyond-the-block-maximum", "verdict/rejected-by-both", "verdict/accepted-by-both", "mutated/csum", "mutated/bsum", "mutated/hc", "mutated/bsize", "mutated/bdata", "mutated/endmark", "mutated/block", "mutated/flg", "mutated/bd")
+	rec.Require("mutated/bsum-forged", "mutated/csum-forged", "mutated/magic-word", "hostile/stored-block-larger-than-the-block-maximum", "hostile/block-decodes-beyond-the-block-maximum", "verdict/rejected-by-both", "verdict/accepted-by-both", "mutated/csum", "mutated/bsum", "mutated/hc", "mutated/bsize", "mutated/bdata", "mutated/endmark", "mutated/block", "mutated/flg", "mutated/bd")
 	checkProp(t, "C05", "C05/mutate", pick(40000, 600000), drawC05, runC05)
 }
